@@ -4,6 +4,7 @@
   structural recursion on explicit fuel; `OutOfFuel` is an ordinary reported error.)
 -/
 import NextestModel.Lemmas.Spans
+import NextestModel.Lemmas.ResultOrError
 import NextestModel.Model.Syntax
 import NextestModel.Lemmas.StringRoundTrip
 import NextestModel.Gen.Tables
@@ -260,6 +261,22 @@ theorem spans_in_input (input : List Char) (rv gv : List (List Char × Bool)) (e
   · cases h
   · simp only [Except.error.injEq] at h; subst h
     exact parseTop_spans input rv gv
+
+/-- **an expression or at least one error**: on every string, `Filterset::parse` (model: `parseFilterset`) either returns an
+    expression, or returns a NON-EMPTY list of errors — it can never come back empty-handed -/
+theorem result_or_error (input : List Char) (rv gv : List (List Char × Bool)) (errs : List PErr)
+    (h : parseFilterset input rv gv = .error errs) : errs ≠ [] := by
+  unfold parseFilterset at h
+  simp only at h
+  split at h
+  · cases h
+  · rename_i e es hne
+    simp only [Except.error.injEq] at h; subst h
+    cases he : (parseTop (mkCtx input rv gv) input).1 with
+    | none => exact parseTop_none_errs _ input he
+    | some x =>
+      intro hes
+      exact hne x he hes
 
 -- non-vacuity: an input that ends right after a backslash (the escape error's span is clamped to what remains: nothing)
 example : (match parseFilterset "test(foo\\".toList [] [] with | .error es => es | .ok _ => []) =
